@@ -1169,7 +1169,10 @@ def in_toto_match_products(
         paths = ["."]
 
     artifacts = record_artifacts_as_dict(
-        paths, exclude_patterns=exclude_patterns, lstrip_paths=lstrip_paths
+        paths,
+        exclude_patterns=exclude_patterns,
+        follow_symlink_dirs=True,
+        lstrip_paths=lstrip_paths,
     )
 
     artifact_names = artifacts.keys()
